@@ -35,6 +35,7 @@ CHECKS = {
     "C09": ("nt", "exhaustive product enumeration of tunable definitions/owners/subtables/writeDefault/pre-existing values, plus closed explicit-state exploration of python-side and NetworkTables-side read/write interleavings on two instances of one class against a dict model", "The definition family is enumerated completely; the read/write behaviour is a finite machine (value of each instance's topic) whose every state x operation is executed on the real tunables with independent NT publishers/subscribers.", "4 (nt engine)"),
     "C10": ("robot", ROBOT_TECH + " x all 16 assignment scripts x single fault plans; reset model replayed over the observed callback order", ROBOT_TEXT, "4 (robot engine, C10)"),
     "C11": ("robot", ROBOT_TECH + " x fault plans on getters; independent NetworkTables read after every iteration", ROBOT_TEXT, "4 (robot engine, C11)"),
+    "C14": ("selector", "exhaustive enumeration of generated autonomous packages on disk x FMS flag against a set-level discovery model; prefix-replay DFS over all start/periodic/disable histories x selection sources; run() periods through the real MagicRobot loop", "The package family (modules x classes x MODE_NAME/DISABLED/DEFAULT/raising constructor/failing import) is enumerated completely and loaded by the real selector; every operation history up to the stated length is executed and its exact callback log compared.", "4 (selector engine)"),
     "C15": ("sa", "bounded exhaustive exploration (prefix-replay DFS) of generated StatefulAutonomous subclasses over all on_enable / on_iteration(tm) / dashboard-edit sequences and in-state actions, lock-step reference model", "Every operation sequence up to the stated depth, over several autonomous periods on the same instance, is executed on the real class and compared with a reference model whose periods are independent by construction.", "4 (sa engine)"),
     "C20": (
         "crc",
